@@ -182,9 +182,14 @@ type c10sSess struct {
 	didShutdown bool
 
 	// observations of the current drain
-	flowRST    map[uint32]bool
+	flowRST    map[uint32]int // RST_STREAM(FLOW_CONTROL_ERROR) frames seen in the last drain, per stream
 	flowGoAway bool
 	sawWU      bool // the server emitted a WINDOW_UPDATE
+	stale      bool // the fake client has not read the server's output since the last step
+	// stream-level overruns sent while the client was not reading: the refusal is due at
+	// the next drain (stream id -> description of the frame)
+	pendingFlow map[uint32]string
+	flowExcused bool // a GOAWAY(FLOW_CONTROL_ERROR) answered one of them
 
 	discard map[string]bool
 }
@@ -257,8 +262,9 @@ func (x *c10sSess) handle(w http.ResponseWriter, req *http.Request) {
 
 // drain reads everything the server has written, up to quiescence.
 func (x *c10sSess) drain() error {
-	x.flowRST = map[uint32]bool{}
+	x.flowRST = map[uint32]int{}
 	x.sawWU = false
+	x.stale = false
 	for {
 		f, err := x.s.read()
 		if err != nil {
@@ -266,6 +272,19 @@ func (x *c10sSess) drain() error {
 			return nil
 		}
 		if f == nil {
+			for id, what := range x.pendingFlow {
+				switch {
+				case x.flowRST[id] > 0:
+					if x.flowRST[id]--; x.flowRST[id] == 0 { // accounted for
+						delete(x.flowRST, id)
+					}
+				case x.flowGoAway:
+					x.flowExcused = true
+				default:
+					return fmt.Errorf("%s, sent while the client was not reading; no RST_STREAM/GOAWAY with FLOW_CONTROL_ERROR followed once it read again", what)
+				}
+				delete(x.pendingFlow, id)
+			}
 			return nil
 		}
 		if c10sDebug {
@@ -314,7 +333,7 @@ func (x *c10sSess) drain() error {
 					st.srvCode = f.ErrCode
 				}
 				if f.ErrCode == ErrCodeFlowControl {
-					x.flowRST[f.StreamID] = true
+					x.flowRST[f.StreamID]++
 				}
 			}
 		case *GoAwayFrame:
@@ -337,7 +356,8 @@ func (x *c10sSess) drain() error {
 func (x *c10sSess) settle(nd bool) error {
 	if nd {
 		synctest.Wait()
-		x.flowRST, x.sawWU = map[uint32]bool{}, false
+		x.flowRST, x.sawWU = map[uint32]int{}, false
+		x.stale = true
 		return nil
 	}
 	return x.drain()
@@ -408,6 +428,41 @@ func (x *c10sSess) sendData(st *c10sSt, n, pad int, end, nd bool) error {
 			x.class("overrun-within-batched-conn-refund")
 		}
 	}
+	if x.m.verdict && !fits && (x.stale || nd) {
+		// The fake client has not read everything the server wrote, so its view of the
+		// windows may lag behind what the server has already advertised (a WINDOW_UPDATE
+		// is queued or sits unread in the pipe). The verdict "must be refused" is certain
+		// only when the frame exceeds even the server's own connection-level count,
+		// which is never below what it advertised; such a frame is followed by a read
+		// of everything pending. Any other overrun is not sent in this state.
+		availC, _ := x.s.sc.VPSrvConnInflow()
+		availS, judged := x.s.sc.VPSrvStreamInflow(st.id)
+		switch {
+		case L > int64(availC):
+			nd = false
+			x.class("overrun-of-the-server-side-connection-window-while-output-unread")
+			if x.s.sc.VPSrvResetQueued(st.id) {
+				x.class("overrun-on-a-stream-whose-rst-stream-is-still-queued")
+			}
+		case open && judged && L > int64(availS) && st.k < len(x.c.Streams) && x.c.Streams[st.k].CL < 0:
+			// Likewise for the stream's own count. This frame may stay unanswered for
+			// now: the RST_STREAM(FLOW_CONTROL_ERROR) is due at the next read of the
+			// server's output, and the stream is over as far as the script is concerned.
+			x.class("overrun-of-the-server-side-stream-window-while-output-unread")
+			if nd {
+				if err := x.s.fr.WriteRawFrame(FrameData, flags, st.id, payload); err != nil {
+					return fmt.Errorf("harness: DATA: %v", err)
+				}
+				x.pendingFlow[st.id] = fmt.Sprintf("DATA frame of %d bytes on stream %d exceeds the stream window (client's view %d, server's own count %d)", L, st.id, sv0, availS)
+				st.srvReset = true
+				st.sent += int64(n)
+				return x.settle(true)
+			}
+		default:
+			x.class("step-skipped-overrun-with-stale-view")
+			return nil
+		}
+	}
 	if !fits && !x.m.verdict {
 		return fmt.Errorf("harness: %s script sent a DATA frame of %d bytes beyond the windows (stream %d, conn %d)", x.m.id, L, st.view, x.connView)
 	}
@@ -453,7 +508,7 @@ func (x *c10sSess) sendData(st *c10sSt, n, pad int, end, nd bool) error {
 	if err := x.drain(); err != nil {
 		return err
 	}
-	flowErr := x.flowRST[st.id] || x.flowGoAway
+	flowErr := x.flowRST[st.id] > 0 || (x.flowGoAway && !x.flowExcused)
 	if flowErr {
 		x.class("flow-control-error-seen")
 	}
@@ -461,7 +516,7 @@ func (x *c10sSess) sendData(st *c10sSt, n, pad int, end, nd bool) error {
 		switch {
 		case fits && flowErr:
 			return fmt.Errorf("DATA frame of %d bytes on stream %d (open=%v) fits the advertised windows (stream %d, connection %d) but was answered with FLOW_CONTROL_ERROR (RST_STREAM=%v GOAWAY=%v)",
-				L, st.id, open, sv0, cv0, x.flowRST[st.id], x.flowGoAway)
+				L, st.id, open, sv0, cv0, x.flowRST[st.id] > 0, x.flowGoAway)
 		case !fits && !flowErr && !x.connClosed:
 			return fmt.Errorf("DATA frame of %d bytes on stream %d (open=%v) exceeds the advertised windows (stream %d, connection %d) but no RST_STREAM/GOAWAY with FLOW_CONTROL_ERROR followed",
 				L, st.id, open, sv0, cv0)
@@ -480,7 +535,7 @@ func (x *c10sSess) noFlowErr(after string) error {
 	if !x.m.verdict {
 		return nil
 	}
-	if len(x.flowRST) > 0 || x.flowGoAway {
+	if len(x.flowRST) > 0 || (x.flowGoAway && !x.flowExcused) {
 		return fmt.Errorf("the server sent RST_STREAM/GOAWAY with FLOW_CONTROL_ERROR after %s although no DATA frame was outstanding", after)
 	}
 	return nil
@@ -561,6 +616,7 @@ func c10sRun(c c10sCase, m c10sMode) (res c10sResult) {
 		x.rel[i] = make(chan struct{}, len(c.Steps)+1)
 	}
 	x.final = make(chan struct{})
+	x.pendingFlow = map[uint32]string{}
 	x.sts = make([]*c10sSt, n+1)
 	for i := range x.sts {
 		x.sts[i] = &c10sSt{k: i}
